@@ -2,6 +2,7 @@
 C04 — `decode_header` applied to a header block the writer produced, and the last iteration of `read_header`'s loop.
 -/
 import Sqfs.Proofs.TarReadLoop
+import Sqfs.Proofs.TarDecodeSpec
 namespace Sqfs.Tar
 
 /-- none of the numeric `set_by_pax` bits is set (the writer's extension records only ever set `PAX_NAME` and
@@ -100,8 +101,46 @@ theorem loop_main (cfg : ReadCfg) (f : Nat) (s' : Bytes) (pz : Bool)
   have hr := decodedMain_recordSize name linkname mode uid gid size maj min mtime tf mask out
   rw [readHeaderLoop]
   simp only [show ¬ (hdrBlock name mode uid gid size mtime tf linkname maj min ++ s').length < 512 by simp [h.len],
-    if_false, List.take_left' h.len, List.drop_left' h.len, h.nz, h.ver, h.ck, h.tfl,
+    if_false, List.take_left' h.len, List.drop_left' h.len, h.nz,
+    hdrBlock_version name mode uid gid size mtime tf linkname maj min hn hl, h.ck, h.tfl,
     Bool.false_eq_true, not_true_eq_false, if_true, htf.1, htf.2.1, htf.2.2.1, htf.2.2.2.1, htf.2.2.2.2, hd, hm.sparse]
   simp only [hs, hsp, hr, List.isEmpty_nil, not_true_eq_false, false_and, and_false, if_false, if_true]
+
+/-! ### a plain header block of any dialect (v7, pre-POSIX/GNU, POSIX ustar) -/
+
+/-- the last iteration of `read_header`'s loop on *any* block the reader recognises (valid checksum, one of the three
+    magic/version pairs, type flag other than the extension records and the old GNU sparse header): the result is exactly
+    the field-by-field specification `specDecode`, or the header is refused -/
+theorem loop_plain (cfg : ReadCfg) (f : Nat) (h s' : Bytes) (pz : Bool) (v : Version) (mask : Nat) (out : Decoded)
+    (hl : h.length = 512) (hnz : isZeroBlock h = false) (hv : checkVersion h = some v) (hck : isChecksumValid h = true)
+    (htf : (slice h 156 1).headD 0 ≠ 75 ∧ (slice h 156 1).headD 0 ≠ 76 ∧ (slice h 156 1).headD 0 ≠ 103 ∧
+           (slice h 156 1).headD 0 ≠ 120 ∧ (slice h 156 1).headD 0 ≠ 83)
+    (hsp : out.sparse = []) (hgnu : hasFlag mask PAX_SPARSE_GNU_1_X = false) :
+    readHeaderLoop cfg (f + 1) (h ++ s') out mask pz =
+      match specDecode h mask out v with
+      | none => .err
+      | some d => .ok { d with actualSize := d.recordSize } s' := by
+  rw [readHeaderLoop]
+  simp only [show ¬ (h ++ s').length < 512 by simp [hl], if_false, List.take_left' hl, List.drop_left' hl, hnz, hv, hck,
+    Bool.false_eq_true, not_true_eq_false, if_true, htf.1, htf.2.1, htf.2.2.1, htf.2.2.2.1, htf.2.2.2.2,
+    decodeHeader_eq_spec, hgnu]
+  cases hd : specDecode h mask out v with
+  | none => rfl
+  | some d =>
+    have hs : d.sparse = [] := by
+      unfold specDecode at hd
+      simp only [Option.bind_eq_bind, Option.pure_def] at hd
+      -- every path of the specification keeps `sparse`
+      revert hd
+      cases specField mask PAX_SIZE (some out.recordSize) (slice h 124 12) id <;>
+      cases specField mask PAX_UID (some out.uid) (slice h 108 8) id <;>
+      cases specField mask PAX_GID (some out.gid) (slice h 116 8) id <;>
+      cases specField mask PAX_DEV_MAJ (some out.devMajor) (slice h 329 8) (· % 4294967296) <;>
+      cases specField mask PAX_DEV_MIN (some out.devMinor) (slice h 337 8) (· % 4294967296) <;>
+      cases specField mask PAX_MTIME (some out.mtime) (slice h 136 12) toSigned <;>
+      cases specNumber (slice h 100 8) <;>
+      simp only [Option.bind_none, Option.bind_some, reduceCtorEq, false_imp_iff, Option.some.injEq] <;>
+      (intro hd; rw [← hd]; exact hsp)
+    simp only [hs, List.isEmpty_nil, not_true_eq_false, false_and, and_false, if_false, if_true]
 
 end Sqfs.Tar
